@@ -123,6 +123,22 @@ CHECKS = {
                      'every opened result equals the plain group operation for every party, configurations (m,t) up to 5 (quick) / 7 (thorough) parties, with and without PRSS',
                 note='bounded: seeded concrete runs, small QR/Schnorr parameters; secure hyperelliptic groups need NumPy (not covered); led to one repair (symmetric groups with m >= degree)',
                 technique='bounded multi-party execution against plain-group oracles'),
+    'C05': dict(engine='native-enum', category='other', design_ref='DESIGN.md §5 C05',
+                text='bounded stand-in: every clause of the statement (input/output within 2u|x|, + - within 16u max(|x|,|y|), * / within 16u of the exact magnitude, comparisons exact beyond '
+                     'the 16u gap) evaluated on the real SecFlt code against exact rational arithmetic: exhaustive significand pairs for SecFlt(s=6,e=5) and (s=8,e=5), seeded samples incl. '
+                     'boundary families for s = 11, 24, 53; zero operands, mixed public operands, values next to powers of two',
+                note='bounded, m = 1; one known finding (zero operands aligned to the larger exponent); led to one repair (constructor exponent / output scaling)',
+                technique='bounded exhaustive / sampled contract evaluation against exact rational oracles'),
+    'C37': dict(engine='native-enum+symx-mp', category='other', design_ref='DESIGN.md §5 C37',
+                text='bounded: NumPy (wheel from the offline wheelhouse, installed by bin/setup into the check interpreter only) enabled; 59 natives compare secure integer / fixed-point / field arrays '
+                     'with plain NumPy on exact data AND with the same operation done elementwise on secure scalars: arithmetic with broadcasting (rank <= 3, sizes 0..3), matmul family, comparisons, '
+                     'sort/arg/min/max, reductions, the reshaping/joining/indexing family (declared placeholder shape == shape of the value), input/output, bit operations, FiniteFieldArray, '
+                     'np_random_split/np_recombine/np PRSS against the list versions; 22 families also in m-party runs',
+                note='bounded; 32 listed findings (classes of genuine deviations of the NumPy code paths), 12 more classes repaired by fix commits', technique='bounded contract evaluation against NumPy and scalar oracles'),
+    'C38': dict(engine='native-enum', category='other', design_ref='DESIGN.md §5 C38',
+                text='bounded: NumPy enabled; every secpoly operator and method against GFpX(p) and the independent polynomial oracles of the C23 check, p in {2,3,5,7,31,257}, exhaustive small pairs + samples '
+                     'up to length 9, shares with leading zeros, result lengths independent of the values',
+                note='bounded, m = 1; 9 listed findings, 2 repairs', technique='bounded contract evaluation against two polynomial oracles'),
     'C33': dict(engine='native-enum', category='other', design_ref='DESIGN.md §5 C33',
                 text='range/shape contracts of every function of mpyc/random.py on argument grids incl. population sizes 0 and 1 with deterministic PRSS seeds; uniformity decided by '
                      'enumerating ALL secret-bit strings (random_bits stubbed) up to a stated length: counts per outcome exactly proportional to the documented probabilities at every depth',
@@ -171,10 +187,7 @@ CHECKS = {
 }
 
 NOT_APPLICABLE = {
-    'C05': 'relative-error bounds over Python floats through math.log/round/float multiplication: no contract language or decision procedure for real-valued error analysis within reach; on enumerable significand sizes the 16u bound is vacuous (DESIGN.md §6)',
     'C08': 'quantifies over event-loop interleavings, delivery schedules and liveness; contracts speak about one call or one data structure (DESIGN.md §6)',
-    'C37': 'NumPy is not installed in the repository interpreter: every np_* function is dead code in the environment the checks rebuild from; ndarray object-dtype semantics have no encoding in either engine (DESIGN.md §6)',
-    'C38': 'secpols requires NumPy, absent from the repository interpreter; see C37 (DESIGN.md §6)',
 }
 NOT_BUILT_YET = 'check not built yet in the time used so far; design in DESIGN.md §5'
 ALL = ['C%02d' % i for i in range(1, 40)]
